@@ -73,6 +73,15 @@ def folding(chk, repo, clause):
                 names = list(lp['phi'])
                 thr = len(names) == 2 and xs == lp['phi'][names[0]] and ys == lp['phi'][names[1]] and \
                     kw.get('z') == S('z') and kw.get('wavelength') == S('wavelength')
+                if not thr and len(names) == 1:
+                    # one accumulator holding the (x, y) pair: its two items go in, the result of the call comes back
+                    phi = lp['phi'][names[0]]
+                    thr = xs == nf.index(phi, C(0)) and ys == nf.index(phi, C(1)) and kw.get('z') == S('z') and \
+                        kw.get('wavelength') == S('wavelength') and \
+                        all(isinstance(ends.get(names[0]), Poly) and ends[names[0]].single_atom() is not None and
+                            is_app(ends[names[0]].single_atom(), 'm:shift') and
+                            dict((k_.items[0].value, k_.items[1]) for k_ in ends[names[0]].single_atom()[2][1].items
+                                 if isinstance(k_, Tup)).get('xs') == xs for ends in lp['ends'])
             ok = whole and thr and len(calls) == 1
             det = f'iterates over {fmt(lp["iter"])}; shift call gets xs/ys = ' + \
                   (', '.join(fmt((e.data.get("kwargs") or {}).get(k)) for e in calls for k in ('xs', 'ys')) or '-')
